@@ -112,8 +112,9 @@ def run(ctx):
                             items.append((k3, g, False, g, "kbpk-other-length", key))
     budget = ctx.n(2600, 60000)
     if len(items) > budget:
-        keep = [it for it in items if it[4] in ("genuine", "lower-case hex")]
-        rest = [it for it in items if it[4] not in ("genuine", "lower-case hex")]
+        always = ("genuine", "lower-case hex", "kbpk-other-length")
+        keep = [it for it in items if it[4] in always]
+        rest = [it for it in items if it[4] not in always]
         rng.shuffle(rest)
         items = keep + rest[:budget]
     munw = t.model_unwrap([(k, s) for k, s, *_ in items])
@@ -128,7 +129,10 @@ def run(ctx):
         dist[kk] = dist.get(kk, 0) + 1
         seen.add((kbpk, s))
         inp = {"kbpk": kbpk.hex(), "string": s, "genuine": g, "kind": kind}
-        if accept:
+        if iu[0] == "OK" and not ref:
+            viol.append({"what": "unwrap returned a key for a block that the independent TR-31 implementation rejects as unauthentic under this KBPK",
+                         "input": inp, "expected": "reject (or a block the reference also opens)", "observed": [str(x)[:80] for x in iu]})
+        elif accept:
             if iu[0] != "OK" or iu[2] != core.show(key):
                 viol.append({"what": "authentic block (or hex-case variant) not unwrapped to its key", "input": inp,
                              "expected": core.show(key), "observed": [str(x)[:80] for x in iu]})
